@@ -272,7 +272,7 @@ fn c02_cast_contracts() {
 macro_rules! array_bounded {
     ($name:ident, $n:expr) => {
         #[kani::proof]
-        #[kani::unwind(6)]
+        #[kani::unwind(8)]
         #[kani::stub(std::fmt::format, fmt_stub)]
         #[kani::stub(GC::trace, trace_contract)]
         fn $name() { array_get_set_contract($n); }
@@ -282,14 +282,19 @@ array_bounded!(c13_array_bounded_0, 0);
 array_bounded!(c13_array_bounded_1, 1);
 array_bounded!(c13_array_bounded_2, 2);
 array_bounded!(c13_array_bounded_3, 3);
+// thorough tier
+array_bounded!(c13_array_bounded_4, 4);
+array_bounded!(c13_array_bounded_5, 5);
 fn array_get_set_contract(n: usize) {
     let mut gc = new_gc();
-    let e = [any_immediate(), any_immediate(), any_immediate()];
+    let e = [any_immediate(), any_immediate(), any_immediate(), any_immediate(), any_immediate()];
     let v = any_immediate();
-    let mut elems = Vec::with_capacity(4);
+    let mut elems = Vec::with_capacity(6);
     if n >= 1 { elems.push(e[0]); }
     if n >= 2 { elems.push(e[1]); }
     if n >= 3 { elems.push(e[2]); }
+    if n >= 4 { elems.push(e[3]); }
+    if n >= 5 { elems.push(e[4]); }
     let mut a = Object::array(elems, &mut gc);
     let i = any_int();
     kani::cover!(i == -(n as isize));
@@ -362,8 +367,12 @@ macro_rules! return_twin {
 return_twin!(c12_return_twin_0, 0);
 return_twin!(c12_return_twin_1, 1);
 return_twin!(c12_return_twin_2, 2);
+// thorough tier
+return_twin!(c12_return_twin_3, 3);
+return_twin!(c12_return_twin_4, 4);
 fn return_twin_contract(n_locals: usize) {
     let (c0, c1, l0, l1, res, last) = (any_immediate(), any_immediate(), any_immediate(), any_immediate(), any_immediate(), any_immediate());
+    let (l2, l3) = (any_immediate(), any_immediate());
     let with_value: bool = kani::any();
     kani::cover!(with_value);
     kani::cover!(!with_value);
@@ -371,6 +380,8 @@ fn return_twin_contract(n_locals: usize) {
     st.push(c0); st.push(c1);
     if n_locals >= 1 { st.push(l0); }
     if n_locals >= 2 { st.push(l1); }
+    if n_locals >= 3 { st.push(l2); }
+    if n_locals >= 4 { st.push(l3); }
     if with_value { st.push(res); }
     let (rip, rbp): (usize, u16) = (kani::any(), kani::any());
     kani::assume(rbp <= 2);
